@@ -316,3 +316,28 @@ _iro.props = ["C19", "C11"]
 _iro.note = ""
 _iro.args = dict(self=lambda a: workflow_spec([]).fresh("workflow"), path=ty.Str)
 _iro.ensures = _iro_post
+
+
+# ---- Workflow.change_is_relevant (which external changes the watcher records: C04, C17; C09: a change to a detached
+#      memory of a file -- e.g. an UNDECLARED input -- is not news, and a hash job for it would be rejected)
+
+from contracts.C08_claims import View, db_of  # noqa: E402
+from contracts import C08_claims  # noqa: E402
+
+wfmod = extract.import_module("stepup/core/workflow.py")
+
+
+def _cir_post(self, path, during_build, result):
+    """An attached file node decides by its state (during a build only CONFIRMED / MISSING, otherwise everything but
+    PLANNED / VOLATILE); a path without attached file node is relevant exactly when an attached registration matches it."""
+    states = lambda fs: tm.Or(*[tm.Eq(state_t(path), tm.mk_int(s.value)) for s in sorted(fs)])  # noqa: E731
+    by_state = tm.Ite(B(during_build), states(wfmod._RELEVANT_STATES_DURING_BUILD), states(wfmod._RELEVANT_STATES))
+    return wrap_bool(tm.Iff(B(result), tm.Ite(attached(path), by_state, View(db_of(self)).globmatch(path))))
+
+
+@contract("stepup/core/workflow.py::Workflow.change_is_relevant", props=["C04", "C17", "C09"])
+class change_is_relevant:
+    args = dict(self=lambda a: workflow_spec([C08_claims.MAG_QUERY]).fresh("workflow"), path=ty.Str, during_build=ty.Bool)
+    ensures = _cir_post
+    result = ty.Bool
+    modifies = []
